@@ -285,7 +285,8 @@ Definition fill_info (static : bool) (oi req : info) : xres info :=
     if negb (is_some (i_mask oi)) && negb (is_some (i_mask req)) then XMeta     (* output.py 410-413 *)
     else if negb (is_some (i_time oi)) && negb static && negb (is_some (i_time req)) then XMeta
     else
-      let t := orelse (i_time oi) (i_time req) in
+      (* output.py 418-425 (repaired): a static output keeps its time, set or not *)
+      let t := if static then i_time oi else orelse (i_time oi) (i_time req) in
       match orelse (i_units oi) (i_units req) with
       | None => XMeta
       | Some u =>
